@@ -1,2 +1,141 @@
-(* C12: statements only; theorems are added as the model of the anchored mechanism is proved *)
-From GGRS Require Import Base.
+(* C12 (endpoint half) — connection lifecycle events of one remote address are well formed and
+   correctly timed.  This file holds statements only; every proof is `exact <lemma>`.
+   Model: Endpoint.v (mirrors src/network/protocol.rs, correspondence level `endpoint`);
+   reference notions (traces, the grammar recogniser, matched replies, latest accepted message): EndpointSpec.v.
+
+   All theorems quantify over EVERY sequence [ops] of endpoint operations (handle_message with arbitrary
+   packets - loss, duplication, reordering, stray and foreign packets are just other sequences -, poll,
+   send_input, disconnect, send_checksum_report, update_local_frame_advantage, drain) with arbitrary clock
+   readings and nonces, over both build profiles [dbg], and over every configuration of `new`.
+   A sequence on which the code panics has no result ([run] = Panic) and is not constrained. *)
+From GGRS Require Import Base Consts TimeSync Endpoint EndpointSpec EndpointProofs.
+Open Scope Z_scope.
+
+(* (a) The concatenation of all event batches returned by poll (and also together with what still waits in
+   the queue) is a prefix of a word of
+     Synchronizing(5,1) .. Synchronizing(5,4) Synchronized (NetworkInterrupted NetworkResumed)* NetworkInterrupted? Disconnected?
+   with Input events anywhere; in particular nothing but Input events follows Disconnected and there is
+   at most one Disconnected.  Holds for the code since 25d3021 without any assumption on the caller. *)
+Theorem C12_event_grammar :
+  forall now0 magic handles np lp mp timeout notify fps desync dbg ops s evs,
+  run dbg (ep_new now0 magic handles np lp mp timeout notify fps desync) ops = Ok (s, evs) ->
+  event_grammar evs /\ event_grammar (evs ++ u_event_queue s).
+Proof. exact event_grammar_full. Qed.
+
+Theorem C12_at_most_one_disconnected :
+  forall now0 magic handles np lp mp timeout notify fps desync dbg ops s evs,
+  run dbg (ep_new now0 magic handles np lp mp timeout notify fps desync) ops = Ok (s, evs) ->
+  event_grammar (without_disconnected evs) /\ (count_disconnected evs <= 1)%nat.
+Proof. exact grammar_modulo_disconnected. Qed.
+
+(* The code before 7ec8d35 violated it: 130 send_input calls without an acknowledgement and one poll
+   report Disconnected twice (script confirmed on the real endpoint, see p_endpoint.confirm_multiple_disconnected) *)
+Theorem C12_multiple_disconnected_refuted :
+  exists s evs, run_gen before_7ec8d35 true w_new w_multi = Ok (s, evs) /\ count_disconnected evs = 2%nat /\
+                recog (RSync 0) evs = None.
+Proof. exact multiple_disconnected_refuted. Qed.
+
+(* The code before 25d3021 violated it: an interrupted endpoint whose send_input overflows and which then
+   receives a packet reports Disconnected followed by NetworkResumed in one poll *)
+Theorem C12_event_after_disconnected_refuted :
+  exists s evs, run_gen before_25d3021 true w_new w_after = Ok (s, evs) /\ recog (RSync 0) evs = None /\
+                skipn 6 (filter (fun e => negb (is_input e)) evs) = [EvDisconnected; EvNetworkResumed].
+Proof. exact event_after_disconnected_refuted. Qed.
+
+(* (b) [matched] counts the SyncReply packets handled while their nonce was outstanding in the Synchronizing
+   state.  Synchronized is emitted iff NUM_SYNC_PACKETS replies matched; a Running endpoint has matched
+   that many; the remote magic is unset before and is the magic of the NUM_SYNC_PACKETS-th matched reply after.
+   (is_synchronized is also true for an endpoint that was disconnected before the handshake finished.) *)
+Theorem C12_handshake_count :
+  forall now0 magic handles np lp mp timeout notify fps desync dbg ops s evs,
+  run dbg (ep_new now0 magic handles np lp mp timeout notify fps desync) ops = Ok (s, evs) ->
+  let s0 := ep_new now0 magic handles np lp mp timeout notify fps desync in
+  let m := matched dbg s0 ops in
+  0 <= m <= NUM_SYNC_PACKETS /\
+  (m = NUM_SYNC_PACKETS <-> In EvSynchronized (evs ++ u_event_queue s)) /\
+  (is_running s = true -> m = NUM_SYNC_PACKETS) /\
+  (m = NUM_SYNC_PACKETS -> is_synchronized s = true) /\
+  (m < NUM_SYNC_PACKETS -> u_remote_magic s = 0) /\
+  (m = NUM_SYNC_PACKETS ->
+   u_remote_magic s = nth (Z.to_nat (NUM_SYNC_PACKETS - 1)) (map snd (matches dbg s0 ops)) 0).
+Proof. exact handshake_count. Qed.
+
+(* a reply that does not match (unknown or already answered nonce, wrong state, filtered) changes nothing
+   of the handshake and emits no Synchronized *)
+Theorem C12_unmatched_reply_no_effect : forall dbg now nonce magic n s s',
+  match_of s (OMessage now nonce (mkMsg magic (SyncReply n))) = [] ->
+  handle_message dbg now nonce (mkMsg magic (SyncReply n)) s = Ok s' ->
+  u_state s' = u_state s /\ u_sync_remaining s' = u_sync_remaining s /\
+  u_sync_requests s' = u_sync_requests s /\ u_remote_magic s' = u_remote_magic s /\
+  ~ In EvSynchronized (skipn (length (u_event_queue s)) (u_event_queue s')).
+Proof. exact unmatched_reply_no_effect. Qed.
+
+(* duplicates do not count: if the nonces the endpoint draws are pairwise distinct, every nonce is matched
+   at most once *)
+Theorem C12_matched_nonces_distinct :
+  forall now0 magic handles np lp mp timeout notify fps desync dbg ops s evs,
+  let s0 := ep_new now0 magic handles np lp mp timeout notify fps desync in
+  fresh_nonces dbg s0 [] ops -> run dbg s0 ops = Ok (s, evs) -> NoDup (map fst (matches dbg s0 ops)).
+Proof. exact matched_nonces_distinct. Qed.
+
+(* (c) last_recv_time is the time of the latest handle_message that passed the filters (the creation time
+   before the first).  A poll at time [now] pushes NetworkInterrupted only if now > that + notify and
+   Disconnected only if now > that + timeout; the queue never holds an unpolled NetworkInterrupted; and
+   conversely a poll of a Running endpoint past the threshold pushes the event unless it was pushed before. *)
+Theorem C12_no_early_timer :
+  forall now0 magic handles np lp mp timeout notify fps desync dbg ops s evs,
+  let s0 := ep_new now0 magic handles np lp mp timeout notify fps desync in
+  run dbg s0 ops = Ok (s, evs) ->
+  let la := last_accept dbg s0 ops now0 in
+  u_last_recv_time s = la /\
+  forall now nonce cs s' out, step dbg (OPoll now nonce cs) s = Ok (s', out) ->
+    exists pushed, out = u_event_queue s ++ pushed /\
+      (forall t, ~ In (EvNetworkInterrupted t) (u_event_queue s)) /\
+      (forall t, In (EvNetworkInterrupted t) pushed -> la + notify < now /\ t = Z.max 0 (timeout - notify)) /\
+      (In EvDisconnected pushed -> la + timeout < now) /\
+      (u_state s = PRunning -> u_notify_sent s = false -> u_event_sent s = false -> la + notify < now ->
+         In (EvNetworkInterrupted (Z.max 0 (timeout - notify))) pushed) /\
+      (u_state s = PRunning -> u_event_sent s = false -> la + timeout < now -> In EvDisconnected pushed).
+Proof. exact no_early_timer. Qed.
+
+(* If at every poll of the Running endpoint the latest accepted packet is at most G + P ms old
+   (packets arrive at least every G ms - the peer's 200 ms keep-alive / quality-report timers plus its poll
+   period plus latency jitter - and are handled at most P ms later) and G + P < notify, then no
+   NetworkInterrupted is ever emitted. *)
+Theorem C12_no_spurious_interrupt :
+  forall now0 magic handles np lp mp timeout notify fps desync G P dbg ops s evs,
+  let s0 := ep_new now0 magic handles np lp mp timeout notify fps desync in
+  G + P < notify -> fed (G + P) dbg s0 ops now0 -> run dbg s0 ops = Ok (s, evs) ->
+  forall t, ~ In (EvNetworkInterrupted t) (evs ++ u_event_queue s).
+Proof. exact no_spurious_interrupt. Qed.
+
+(* the default configuration leaves room: the peer's timers fire every 200 ms, so G + P may be up to 499 ms *)
+Theorem C12_default_margin :
+  KEEP_ALIVE_INTERVAL < DEFAULT_DISCONNECT_NOTIFY_START /\ QUALITY_REPORT_INTERVAL < DEFAULT_DISCONNECT_NOTIFY_START /\
+  DEFAULT_DISCONNECT_NOTIFY_START <= DEFAULT_DISCONNECT_TIMEOUT.
+Proof. vm_compute. intuition discriminate. Qed.
+
+(* non-vacuity: a complete handshake under duplicated, stray and foreign replies reaches Running with
+   exactly the five Synchronizing/Synchronized events, remote magic = magic of the fifth matched reply *)
+Example C12_handshake_example :
+  exists s evs, run true w_new w_dup = Ok (s, evs) /\ is_running s = true /\ matched true w_new w_dup = 5 /\
+    u_remote_magic s = 8 /\ fresh_nonces true w_new [] w_dup /\
+    evs = [EvSynchronizing 5 1; EvSynchronizing 5 2; EvSynchronizing 5 3; EvSynchronizing 5 4; EvSynchronized].
+Proof. exact handshake_example. Qed.
+
+(* non-vacuity: interruption at notify+1 (not at notify), resume, interruption, timeout at timeout+1 *)
+Example C12_cycle_example :
+  exists s evs, run true w_new w_cycle = Ok (s, evs) /\
+    skipn 5 evs = [EvNetworkInterrupted 1500; EvNetworkResumed; EvNetworkInterrupted 1500; EvDisconnected] /\
+    event_grammar evs.
+Proof. exact cycle_example. Qed.
+
+(* the repaired code on the first witness: one Disconnected *)
+Example C12_multiple_disconnected_repaired :
+  exists s evs, run true w_new w_multi = Ok (s, evs) /\ count_disconnected evs = 1%nat.
+Proof. exact multiple_disconnected_repaired. Qed.
+
+Check C12_event_grammar :
+  forall now0 magic handles np lp mp timeout notify fps desync dbg ops s evs,
+  run dbg (ep_new now0 magic handles np lp mp timeout notify fps desync) ops = Ok (s, evs) ->
+  event_grammar evs /\ event_grammar (evs ++ u_event_queue s).
